@@ -9,6 +9,7 @@ Python-side abstract syntax (names instead of indices, Fractions instead of limb
          | ("draw", var, dist, cond, default var)
          | ("if", [cond, ...], [stmts, ...], else stmts)
          | ("simul", [assign or draw stmts])                   -- simultaneous assignment
+         | ("func", var, "Sin"|"Cos"|"Exp", arg var or number, cond, default var)
   dist   : ("bernoulli", p) | ("categorical", [p, ...]) | ("duniform", lo, hi) | ("finite", [(x, p), ...])
   prog   : {"vars": [names], "s0": {name: scalar}, "init": stmts, "guard": cond, "body": stmts}
 
@@ -148,6 +149,11 @@ class Encoder:
                 yield from self.numbers_cond(s[3])
             elif s[0] == "simul":
                 yield from self.numbers_stmts(s[1])
+            elif s[0] == "func":
+                for x, y in func_table(s[2], s[3]):
+                    yield x
+                    yield y
+                yield from self.numbers_cond(s[4])
             elif s[0] == "if":
                 for c in s[1]:
                     yield from self.numbers_cond(c)
@@ -204,6 +210,14 @@ class Encoder:
                             "c": self.cond(s[3], D), "d": self.idx[s[4]]})
             elif s[0] == "simul":
                 out.append({"t": "simul", "items": self.stmts(s[1], D)})
+            elif s[0] == "func":
+                tab = func_table(s[2], s[3])
+                isvar = isinstance(s[3], str)
+                out.append({"t": "func", "v": self.idx[s[1]], "arg": self.idx[s[3]] if isvar else 0,
+                            "argc": enc_s(0 if isvar else s[3], D),
+                            "tab": [{"x": enc_s(x, D), "y": enc_s(y, D)} for x, y in tab],
+                            "miss": enc_s(Fraction(123456789), D),
+                            "c": self.cond(s[4], D), "d": self.idx[s[5]]})
             elif s[0] == "if":
                 out.append({"t": "if", "cs": [self.cond(c, D) for c in s[1]],
                             "bs": [self.stmts(b, D) for b in s[2]], "el": self.stmts(s[3], D)})
@@ -215,6 +229,25 @@ class Encoder:
         return {"s0": [enc_s(P["s0"].get(v, 0), D) for v in self.vars],
                 "init": self.stmts(P["init"], D), "guard": self.cond(P["guard"], D),
                 "body": self.stmts(P["body"], D)}
+
+
+FUNC_DIGITS = 34
+FUNC_ARGS = [Fraction(i, 2) for i in range(-8, 25)]
+
+
+def func_value(fn, x):
+    """rational approximation (FUNC_DIGITS significant digits) of Sin / Cos / Exp at the rational x"""
+    import mpmath
+    mpmath.mp.dps = FUNC_DIGITS + 12
+    f = {"Sin": mpmath.sin, "Cos": mpmath.cos, "Exp": mpmath.exp}[fn]
+    v = f(mpmath.mpf(x.numerator) / mpmath.mpf(x.denominator))
+    return Fraction(mpmath.nstr(v, FUNC_DIGITS, strip_zeros=False))
+
+
+def func_table(fn, arg):
+    """(argument, value) pairs: all half-integers of a window for a variable argument, the constant itself otherwise"""
+    args = FUNC_ARGS if isinstance(arg, str) else [Fraction(arg)]
+    return [(x, func_value(fn, x)) for x in args]
 
 
 def choose_D(numbers):
